@@ -254,6 +254,59 @@ def rule_L2(prog, chk):
     chk.floor("L2", n, 15)
 
 
+def rule_K(prog, chk):
+    """K - the reader of the role names inverts the writer.  The writer emits `<keyword><rank+1>` with the keyword of the role's row in
+    DEF_LOCATOR; the reader (locatorIdentify) must recognise the COMPLETE keyword.  A reader that accepts the first keyword that is a
+    PREFIX of the name (`name.compare(0, strlen(kw), kw) == 0`) inverts the writer only if no keyword of the table is a prefix of
+    another one: "facies1" was read back as role "f" (external drift), "gausfac1" as "g" (gradient)."""
+    import re
+    fs = [f for f in prog.fns("locatorIdentify") if f.body is not None]
+    if not fs:
+        ptr = os.path.join(REPO, "src/Db/PtrGeos.cpp")
+        extra = Program().load_dir(extract([ptr], "C08k-" + chk.tier))
+        fs = [f for f in extra.fns("locatorIdentify") if f.body is not None]
+        chk.units += [u for u in extra.units if u not in chk.units]
+    if not fs:
+        raise facts.AnalysisBroken("locatorIdentify not found")
+    f = fs[0]
+    prefix_cmp = [c for c in f.calls() if (c.get("callee") or "").split("::")[-1] == "compare" and len(call_args(c)) >= 3 and
+                  any(y["k"] == "Call" and (y.get("callee") or "") == "strlen" for a_ in call_args(c)[:2] if a_ is not None for y in walk(a_)) or
+                  ((c.get("callee") or "").split("::")[-1] in ("compare", "strncmp") and len(call_args(c)) >= 3 and
+                   any(show(a_) in ("lng",) for a_ in call_args(c) if a_ is not None))]
+    # the table of keywords (data of the same unit)
+    src = open(f.file, errors="replace").read()
+    m = re.search(r"DEF_LOCATOR\[\]\s*=\s*\{(.*?)\};", src, re.S)
+    kws = re.findall(r"\{\s*\"([a-z]+)\"\s*,", m.group(1)) if m else []
+    if len(kws) < 20:
+        raise facts.AnalysisBroken("table DEF_LOCATOR not found (%d keywords)" % len(kws))
+    clashes = sorted((a, b) for a in kws for b in kws if a != b and b.startswith(a))
+    chk.analysed(f)
+    # accepted idiom: among the keywords that start the name the LONGEST is retained (`if (lng > lngmax && name.compare(0, lng, kw) == 0)
+    # { found = i; lngmax = lng; }`)
+    longest = False
+    for x in f.walk():
+        if x["k"] != "If" or x["c"][-3] is None or x["c"][-2] is None:
+            continue
+        cnd = x["c"][-3]
+        if not any(c_["i"] == y["i"] for c_ in prefix_cmp for y in walk(cnd)):
+            continue
+        for y in walk(cnd):
+            if y["k"] == "BinOp" and y.get("op") in (">", ">=") and y["c"][0] is not None and y["c"][1] is not None and \
+                    y["c"][0]["k"] == "DeclRefExpr" and y["c"][1]["k"] == "DeclRefExpr":
+                big, cur = y["c"][1], y["c"][0]
+                if any(z["k"] == "Assign" and z.get("op") == "=" and z["c"][0] is not None and z["c"][0]["k"] == "DeclRefExpr" and z["c"][0].get("d") == big.get("d") and
+                       z["c"][1] is not None and any(w_["k"] == "DeclRefExpr" and w_.get("d") == cur.get("d") for w_ in walk(z["c"][1])) for z in walk(x["c"][-2])):
+                    longest = True
+    ok = not prefix_cmp or not clashes or longest
+    chk.extra["role_name_matching"] = "complete keyword" if not prefix_cmp else ("longest keyword that starts the name" if longest else "first keyword that starts the name")
+    chk.ob("K", "locatorIdentify recognises the complete keyword of a role name (%d keywords)" % len(kws), f.loc(prefix_cmp[0]) if prefix_cmp else f.loc(), ok,
+           detail=None if ok else "the reader accepts the first keyword that is a prefix of the name, and %s: after a save / reload the role %s becomes %s" % (
+               ", ".join("`%s` is a prefix of `%s`" % c_ for c_ in clashes), clashes[0][1].upper(), clashes[0][0].upper()),
+           key="K|locatorIdentify")
+    chk.extra["role_keywords"] = kws
+    chk.extra["keyword_prefix_clashes"] = ["%s<%s" % c_ for c_ in clashes]
+
+
 def main(tier):
     chk = Check("C08", tier,
                 "Static writer/reader agreement of the neutral-file stream of each serialisable class (structural simulation of the "
@@ -290,6 +343,7 @@ def main(tier):
         oprog.load_dir(dh)
         chk.units += [u for u in oprog.units if u not in chk.units]
     c08_order.rule_O(oprog, chk, 2)
+    rule_K(prog, chk)
     return chk.finish()
 
 
